@@ -84,6 +84,8 @@ func (b *proxyIDRingBuffer) Append(proxyID int64, sourceShard history.ClusterSha
 			}
 		}
 	}
+	// Filling holes may have used the last free slot; make room for the entry itself.
+	b.ensureCapacity()
 	pos := (b.head + b.size) % len(b.entries)
 	b.entries[pos] = proxyIDMapping{sourceShard: sourceShard, sourceTask: sourceTask}
 	b.size++
